@@ -12,7 +12,7 @@ from vlib import Inconclusive
 
 
 def run(ctx):
-    plan = [("Requests_quick.cfg", None, None)] if ctx.tier == "quick" else \
+    plan = [("Requests_quick.cfg", None, None), ("Requests_sim.cfg", "num=60", 7)] if ctx.tier == "quick" else \
            [("Requests_thorough.cfg", None, None), ("Requests_sim.cfg", "num=6000", 7)]
     total = 0
     outcomes = dict(rows=0, error=0)
